@@ -232,6 +232,16 @@ def judge07Go (p : RPool) : List (POp × Option Nat) → List String → Option 
       | .on i (.range pos _) => (match (p[i]?).join with | some (_, l) => pos != l.length | none => false)
       | _ => false
     if interior then none else
+    -- an element's copy/move threw inside this step (the case carries a throw point): for a plain append the
+    -- bounded list is what it was before (a failed append adds nothing); for any other operation the contents
+    -- behind a throw are C06's business, and the comparison stops
+    if s.startsWith "threw" then
+      (match op with
+        | .on _ (.emplaceBack _) | .on _ (.insertC _) | .on _ (.insertM _) | .on _ (.pushBack _) =>
+          let expect := "threw " ++ " ".intercalate (p.map rvecStr)
+          if s == expect then judge07Go p ops ss
+          else some ("a-failed-append-changed-the-sequence:got " ++ s ++ " want " ++ expect)
+        | _ => none) else
     let (p', r) := rstep p op
     -- after a move assignment the source holds the target's old contents in the implementation
     -- (swap); the property only says the target receives the sequence, so the source is not compared
